@@ -181,6 +181,11 @@ def from_smt(ob, replay_fn=None):
             r.replay = (ob.replay or replay_fn)(ob)
         except Exception as e:  # replay trouble must not mask the refutation
             r.replay = {"reproduced": False, "error": repr(e)}
+    if r.status == "refuted" and "syntactic" in (ob.note or "") and not (r.replay and r.replay.get("reproduced")):
+        # a syntactic anchor / frame check that no longer matches the source says the text has changed shape, not that the property is broken:
+        # undecided (exit 2), never an alarm. The semantic contracts next to it decide.
+        r.status = "undecided"
+        r.detail = "syntactic anchor/frame check does not match the current source: " + (ob.note or "")
     if r.status == "refuted" and getattr(ob, "havoc", False) and not (r.replay and r.replay.get("reproduced")):
         # the slice was evaluated in tolerant mode and the refuting model involves a value the evaluator replaced by an unconstrained
         # one: the model may be spurious, so it counts only if it replays on the real code. Otherwise: undecided, never an alarm.
